@@ -353,9 +353,63 @@ def ob_accounts(h, ctx, rec):
 # ---------------------------------------------------------------------------------------------- transactions
 
 
+def ob_transactions_expand(h, ctx, rec):
+    """expand=effectiveVolumes on the transactions listing (the read side of C04): for every listed transaction the object
+    {account: {asset: {input, output}}} holds, for exactly the (account, asset) pairs the transaction moved, the
+    post-commit effective volumes recorded by the LAST move (greatest seq) of that transaction on the pair."""
+    cfg = rec["config"]
+    label = f"transactions[{cfg['window']},effectiveVolumes]"
+    if rec.get("error"):
+        h.inconclusive.append(f"{label}: the store refused the query: {rec['error']}")
+        return
+    out = evaluate(h, ctx, rec, label)
+    if out is None:
+        return
+    res, _ = out
+    n = names(res)
+    m = ctx.t["moves"]
+    goals, complete = [], []
+    for o in res.rows:
+        v = o.vals[n.index("post_commit_effective_volumes")]
+        txid = o.vals[n.index("id")].z
+        entries = []
+        if v.kind == "obj":
+            for akey, inner, ag in v.z:
+                if inner.kind != "obj":
+                    h.inconclusive.append(f"{label}: unexpected shape of the expanded object")
+                    return
+                for skey, inp, outp, sg in obj_entries(inner):
+                    entries.append((akey.z, skey.z, inp.z, outp.z, z3.And(ag, sg)))
+        for a, s_, inp, outp, g in entries:
+            wit = []
+            for r in m.rows:
+                of_tx = lambda x: z3.And(ctx.mine(m, x), col(m, x, "transactions_id").z == txid, col(m, x, "accounts_address").z == a, col(m, x, "asset").z == s_)
+                last = z3.And(of_tx(r), *[z3.Not(z3.And(of_tx(x), col(m, x, "seq").z > col(m, r, "seq").z)) for x in m.rows if x is not r])
+                pcev = col(m, r, "post_commit_effective_volumes")
+                wit.append(z3.And(last, z3.Not(pcev.null), pcev.z["inputs"].z == inp, pcev.z["outputs"].z == outp))
+            goals.append(z3.Implies(z3.And(o.guard, z3.Not(v.null), g), z3.Or(*wit) if wit else z3.BoolVal(False)))
+        # completeness: every pair the transaction moved is reported, once
+        for r in m.rows:
+            a, s_ = col(m, r, "accounts_address").z, col(m, r, "asset").z
+            cnt = z3.Sum([z3.If(z3.And(g, ea == a, es == s_), 1, 0) for ea, es, _, _, g in entries]) if entries else z3.IntVal(0)
+            complete.append(z3.Implies(z3.And(o.guard, ctx.mine(m, r), col(m, r, "transactions_id").z == txid), z3.And(z3.Not(v.null), cnt == 1)))
+    h.encoded.append(f"{rec['name']} {cfg}")
+    h.reachable("end", ctx.cons + [z3.Or(*[r.guard for r in res.rows])])
+    pre = "C04:" if ctx.features == "default" else "C35:"
+    suffix = "" if ctx.features == "default" else "@" + ctx.features
+    nonnull = [z3.Not(col(m, r, "post_commit_effective_volumes").null) for r in m.rows]
+    h.prove(pre + label + "-are-those-recorded-by-the-transaction's-last-move-on-the-pair" + suffix, ctx.cons + nonnull, z3.And(*goals) if goals else z3.BoolVal(True),
+            model_vars=[ctx.pit, ctx.L], detail=rec["sql"][-1][:700], dump=dump_tables(ctx.t))
+    h.prove(pre + label + "-cover-every-pair-the-transaction-moved" + suffix, ctx.cons + nonnull, z3.And(*complete) if complete else z3.BoolVal(True),
+            model_vars=[ctx.pit, ctx.L], detail=rec["sql"][-1][:700], dump=dump_tables(ctx.t))
+
+
 def ob_transactions(h, ctx, rec):
     cfg = rec["config"]
     window = cfg["window"]
+    if cfg.get("expand", "") == "effectiveVolumes":
+        ob_transactions_expand(h, ctx, rec)
+        return
     if cfg.get("expand", "") != "":
         return
     label = f"transactions[{window}]"
